@@ -184,6 +184,12 @@ func c18Run(c *core.Ctx, cs c18Case) {
 		}
 		// the twin's target always holds content A; the outside decoy varies in both cases
 		c18Write(filepath.Join(root, "inside", "decoy.yaml"), "d: A\n")
+		if cs.Escaping {
+			// same-named files inside the root where a clamped "../" path would land: reading them
+			// instead would make the escape "work" and depend on whether the outside file exists
+			c18Write(filepath.Join(root, cs.Outside, "decoy.yaml"), "d: SHADOW\n")
+			c18Write(filepath.Join(root, "sub", cs.Outside, "decoy.yaml"), "d: SHADOW\n")
+		}
 		outside := filepath.Join(T, cs.Outside, "decoy.yaml")
 		if st.Name != "absent" {
 			c18Write(outside, st.Content)
